@@ -130,7 +130,7 @@ def random_config(rng, max_w=16, max_h=8):
             cfg["extras"][-1][2] = rng.choice([4083, 4096, 4097, 4200, 8179, 8192, 8300])
     else:
         cfg["extras"] = None
-    if rng.random() < 0.3:
+    if rng.random() < (0.45 if asym and depth_ho > 0 else 0.3):
         # mixed-geometry sequence: further pictures coded with other transform
         # parameters / slice counts / fragmentation (legal: they are per picture)
         m_asym = rng.random() < 0.25
@@ -145,6 +145,27 @@ def random_config(rng, max_w=16, max_h=8):
             "frag": rng.choice([0, 0, 1, 2]),
             "qm": None,
         }
+        if rng.random() < (0.6 if asym and depth_ho > 0 else 0.35):
+            # near-twin pictures: the same TOTAL transform depth split
+            # differently between 2-D and horizontal-only levels (same number
+            # of levels and DC band shape, other subband shapes), optionally the
+            # same slice grid
+            total = depth + depth_ho
+            splits = [(d, total - d) for d in range(0, total + 1) if (d, total - d) != (depth, depth_ho) and d <= 3 and total - d <= 2]
+            same_dc = [sp for sp in splits if (sp[1] > 0) == (depth_ho > 0)]
+            if same_dc and rng.random() < 0.7:
+                splits = same_dc  # ... and the same DC band kind (L vs LL)
+            if splits:
+                cfg["mix"]["depth"], cfg["mix"]["depth_ho"] = rng.choice(splits)
+                cfg["mix"]["wavelet"] = wavelet
+                cfg["mix"]["wavelet_ho"] = wavelet_ho if rng.random() < 0.5 else rng.randrange(7)
+                if rng.random() < 0.5:
+                    cfg["mix"]["sx"], cfg["mix"]["sy"] = sx, sy
+                cfg["npics"] = max(2, cfg["npics"])
+                if rng.random() < 0.5:
+                    # degenerate sizes: components lower than 2^depth (every
+                    # subband one row high after padding)
+                    cfg["h"] = hq * rng.choice([1, 1, 2])
         need = (WaveletFilters(cfg["mix"]["wavelet"]), WaveletFilters(cfg["mix"]["wavelet_ho"]), cfg["mix"]["depth"], cfg["mix"]["depth_ho"]) not in QUANTISATION_MATRICES
         if need:
             cfg["mix"]["qm"] = [rng.choice([0, 1, 2, 3]) for _ in range(qm_length(cfg["mix"]["depth"], cfg["mix"]["depth_ho"]))]
